@@ -50,6 +50,8 @@ type Session struct {
 	unixTerms map[string]bool
 	suppressObl bool
 	scanReal map[string]bool
+	scanRoots map[string][]T
+	tagIsRef []bool
 	lastTxn T
 	getKeys map[string]T
 	scanBlocks map[*ssa.BasicBlock]bool
@@ -137,6 +139,14 @@ func (s *Session) typeTag(t types.Type) T {
 	}
 	id := len(s.typeTags) + 1
 	s.typeTags[k] = id
+	// payloads of pointer-like and boxed (multi-leaf) dynamic types are references
+	ls := shape(t)
+	isRef := len(ls) != 1
+	switch t.Underlying().(type) {
+	case *types.Pointer, *types.Map:
+		isRef = true
+	}
+	s.tagIsRef = append(s.tagIsRef, isRef)
 	return I(int64(id))
 }
 
@@ -187,6 +197,15 @@ func (s *Session) preamble() string {
 	for _, d := range s.decls {
 		sb.WriteString(d)
 		sb.WriteString("\n")
+	}
+	if s.declared["isreftag"] {
+		for i, r := range s.tagIsRef {
+			if r {
+				sb.WriteString(fmt.Sprintf("(assert (isreftag %d))\n", i+1))
+			} else {
+				sb.WriteString(fmt.Sprintf("(assert (not (isreftag %d)))\n", i+1))
+			}
+		}
 	}
 	if s.declared["unixnano"] {
 		sb.WriteString("(assert (= (unixnano 0 0) (- 6795364578871345152)))\n")
